@@ -31,6 +31,9 @@ pub(crate) struct ReqSocket {
   ingress_engine: AddressedIngressEngine,
   pending_pipe_senders: ParkingLotMutex<HashMap<usize, PipeMessageSender>>,
   state: ParkingLotMutex<ReqState>,
+  /// Held for the whole duration of a send()/recv(): the state check and the state update are
+  /// separated by awaits, so without it two racing calls could both pass the check.
+  op_lock: tokio::sync::Mutex<()>,
   reply_available_notifier: Arc<Notify>,
   pipe_read_to_endpoint_uri: RwLock<HashMap<usize, String>>,
 }
@@ -44,6 +47,7 @@ impl ReqSocket {
       ingress_engine: AddressedIngressEngine::new(max_conn),
       pending_pipe_senders: ParkingLotMutex::new(HashMap::new()),
       state: ParkingLotMutex::new(ReqState::ReadyToSend),
+      op_lock: tokio::sync::Mutex::new(()),
       reply_available_notifier: Arc::new(Notify::new()),
       pipe_read_to_endpoint_uri: RwLock::new(HashMap::new()),
     }
@@ -119,6 +123,8 @@ impl ISocket for ReqSocket {
       );
     }
 
+    let _op = self.op_lock.lock().await;
+
     // === LOCK SCOPE 1: Check State ===
     {
       let current_state_guard = self.state.lock();
@@ -191,6 +197,8 @@ impl ISocket for ReqSocket {
     }
 
     let rcvtimeo_opt: Option<Duration> = self.core.core_state.read().options.rcvtimeo;
+
+    let _op = self.op_lock.lock().await;
 
     {
       let op_state_guard = self.state.lock();
@@ -282,6 +290,8 @@ impl ISocket for ReqSocket {
     if !self.core.is_running() {
       return Err(ZmqError::InvalidState("Socket is closing".into()));
     }
+
+    let _op = self.op_lock.lock().await;
 
     {
       let state_guard = self.state.lock();
